@@ -1,7 +1,7 @@
 (* C18 — Date, time and number values are validated and ordered as HTML prescribes.
    Only statements, `exact`, and Print Assumptions.  validate_* are the functions
    REGENERATED from soupsieve/css_match.py (gen/PureGen.v). *)
-From SV Require Import Base Regex RunFacts Lit Inputs Calendar CalendarFacts DateShape.
+From SV Require Import Base Regex RunFacts Lit Inputs Calendar CalendarFacts DateShape AttrFacts RegexLang NumShape.
 From SV.gen Require Import PureGen RegexGen.
 Local Open Scope Z_scope.
 
@@ -155,3 +155,18 @@ Theorem C18_date_complete : forall ys ms ds, digits ys -> digits ms -> digits ds
   parse_value T_date (ys ++ [45%N] ++ ms ++ [45%N] ++ ds) = Ok (Some (PTuple [int10 ys; int10 ms; int10 ds])).
 Proof. exact date_complete. Qed.
 Print Assumptions C18_date_complete.
+
+(* The backtracking matcher of the model finds exactly the matches of the declarative language semantics L (for every
+   expression without look-around and anchors, every subject, every position; captures aside) ... *)
+Theorem C18_matcher_sound : forall r, plain r = true -> forall st c st' c', In (st', c') (ends r st c) -> exists w, via st w st' /\ L r w.
+Proof. exact ends_sound. Qed.
+Print Assumptions C18_matcher_sound.
+Theorem C18_matcher_complete : forall r, plain r = true -> forall st w st' c, via st w st' -> L r w -> exists c', In (st', c') (ends r st c).
+Proof. exact ends_complete. Qed.
+Print Assumptions C18_matcher_complete.
+
+(* ... hence the number pattern REGENERATED from css_match.RE_NUM accepts exactly the HTML "valid floating-point numbers":
+   [-] (digits [. digits] | . digits) [(e|E) [+|-] digits], for EVERY string (nothing before, nothing after: \Z). *)
+Theorem C18_number_shape : forall s, accepts RegexGen.cm_RE_NUM s = true <-> float_grammar s.
+Proof. exact num_accepts. Qed.
+Print Assumptions C18_number_shape.
